@@ -465,7 +465,7 @@ def run(ctx):
     quick = ctx.quick
     pool = ThreadPoolExecutor(6)
     # ---------------------------------------------------------------- design level (started in the background)
-    confs = [("0A_a", 2, 3, 3), ("_a", 3, 4, 4)] if quick else \
+    confs = [("0_a", 2, 4, 3), ("_a", 3, 3, 3)] if quick else \
             [("$0A_ab", 2, 3, 3), ("$_a", 3, 3, 4), ("_a", 4, 4, 5), ("0A_a", 2, 4, 3)]
     futs = []
     for i, (alpha, nm, tb, se) in enumerate(confs):
@@ -493,7 +493,7 @@ def run(ctx):
             cfuts.append(pool.submit(compile_case, case))
     # ---------------------------------------------------------------- spec -> code
     tails = [b"\0", b"a", b"\xff"]
-    oc = [("0A_a", 2, 3, 3)] if quick else [("$0A_ab", 2, 3, 3), ("_a", 3, 4, 4)]
+    oc = [("0_a", 2, 4, 3)] if quick else [("$0A_ab", 2, 3, 3), ("_a", 3, 4, 4)]
     for alpha, nm, tb, se in oc:
         oracle_replay(ctx, real, alpha, nm, tb, se, tails)
     ctx.cov["exhaustive"] = True
